@@ -12,6 +12,9 @@ from sa.core import rule, AnalysisError
 from sa.pyindex import get_module, dotted, src, calls_in, kwarg, try_fold
 from sa import flow, stubs
 from refs import cpython312 as REF
+from rules._util_c13c02c10 import (
+    bool_formula as _bool_formula, implies_literal as _implies_literal,
+    formula_text as _formula_text)
 
 TECHNIQUE = ("static analysis: table extraction from pep484.py / the bundled "
              "stubs compared with frozen CPython reference tables; call-graph "
@@ -25,7 +28,13 @@ EXPLANATION = (
     "classes of builtins.pytd that are CPython builtin types, stub "
     "reachability through bases equals issubclass in CPython 3.12; R2.3 "
     "return, annotated-store and argument sites reach the matcher and log the "
-    "error on a bad match; R2.4 those log methods are registered under "
+    "error on a bad match (InterpreterFunction.match_args is decided path by "
+    "path: the paths of its loop-free body are enumerated - if/else, guard "
+    "clauses, conditional expressions, once-bound locals substituted - and "
+    "every path must either return super().match_args(<its own parameters in "
+    "order>) or return None under a path condition that propositionally "
+    "implies `not self.signature.has_param_annotations`; any other returned "
+    "value or statement kind is an analysis error); R2.4 those log methods are registered under "
     "bad-return-type / annotation-type-mismatch / wrong-arg-types; R2.5 for "
     "16 ground builtin types x 20 ABCs/Supports* protocols, the stubs make T "
     "an inhabitant of X (nominal ancestor, or structural protocol whose "
@@ -308,6 +317,125 @@ def _implemented_between(st, c, b, attr):
   return False
 
 
+# -- R2.3 (c): InterpreterFunction.match_args, decided path by path -------------------
+
+def _subst_locals(expr, env):
+  """Replaces once-bound locals by the expression they were bound to."""
+  if not env:
+    return expr
+  import copy
+
+  class T(ast.NodeTransformer):
+    def visit_Name(self, node):
+      if isinstance(node.ctx, ast.Load) and node.id in env:
+        return copy.deepcopy(env[node.id])
+      return node
+  return T().visit(copy.deepcopy(expr))
+
+
+def _function_paths(body, state, what):
+  """Enumerates the paths of a small loop-free body.  state = (conds, env):
+  the path condition so far and the locals bound by plain assignments.
+  -> (finished: [(conds, return-value-expr-or-None)], open: [state])"""
+  finished, open_ = [], [state]
+  for st in body:
+    if not open_:
+      break
+    if isinstance(st, (ast.Pass, ast.Expr, ast.Assert)) and not (
+        isinstance(st, ast.Expr) and isinstance(st.value, (ast.Yield, ast.YieldFrom, ast.Await))):
+      continue
+    if isinstance(st, (ast.Assign, ast.AnnAssign)) and (
+        isinstance(st, ast.AnnAssign) or len(st.targets) == 1) and \
+        isinstance(st.targets[0] if isinstance(st, ast.Assign) else st.target, ast.Name) \
+        and st.value is not None:
+      name = (st.targets[0] if isinstance(st, ast.Assign) else st.target).id
+      open_ = [(c, dict(env, **{name: _subst_locals(st.value, env)}))
+               for c, env in open_]
+    elif isinstance(st, ast.Return):
+      for c, env in open_:
+        finished += _split_value(
+            c, None if st.value is None else _subst_locals(st.value, env))
+      open_ = []
+    elif isinstance(st, ast.If):
+      nxt = []
+      for c, env in open_:
+        f = _bool_formula(_subst_locals(st.test, env))
+        fb_, ob = _function_paths(st.body, (c + [f], env), what)
+        fe, oe = _function_paths(st.orelse, (c + [("not", f)], env), what)
+        finished += fb_ + fe
+        nxt += ob + oe
+      open_ = nxt
+    elif isinstance(st, ast.Raise):
+      open_ = []
+    else:
+      raise AnalysisError(
+          f"{what}: statement `{src(st)[:60]}` outside the path enumeration "
+          "(only if / return / raise / expression statements and plain local "
+          "assignments are understood)")
+  return finished, open_
+
+
+def _split_value(cond, value):
+  if isinstance(value, ast.IfExp):
+    f = _bool_formula(value.test)
+    return _split_value(cond + [f], value.body) + \
+        _split_value(cond + [("not", f)], value.orelse)
+  return [(cond, value)]
+
+
+def _match_args_delegates(ctx, fi, fn):
+  """Every path through InterpreterFunction.match_args either returns
+  super().match_args(<its own parameters, in order>) or returns None under a
+  path condition that implies `not self.signature.has_param_annotations`."""
+  what = "InterpreterFunction.match_args"
+  construct = f"{what}:delegates"
+  atom = "self.signature.has_param_annotations"
+  params = [a.arg for a in fn.args.posonlyargs + fn.args.args][1:]
+  if fn.args.vararg or fn.args.kwarg or fn.args.kwonlyargs:
+    raise AnalysisError(f"{what}: */**/keyword-only parameters not understood")
+  finished, open_ = _function_paths(fn.body, ([], {}), what)
+  paths = finished + [(c, None) for c, _ in open_]
+  if not paths:
+    raise AnalysisError(f"{what}: no path reaches an exit")
+  delegating, problems, facts = 0, [], []
+  for conds, value in paths:
+    f = ("and", conds)
+    sat = _implies_literal(f, atom, False)
+    if sat is None:
+      continue  # contradictory path
+    is_none = value is None or (isinstance(value, ast.Constant) and value.value is None)
+    ctext = " and ".join(_formula_text(c) for c in conds) or "True"
+    if is_none:
+      facts.append({"when": ctext, "returns": "None"})
+      if not sat:
+        problems.append(f"matching is skipped when `{ctext}`")
+      continue
+    if not (isinstance(value, ast.Call) and isinstance(value.func, ast.Attribute)
+            and value.func.attr == "match_args"
+            and src(value.func.value) == "super()"):
+      raise AnalysisError(
+          f"{what}: returns `{src(value)[:70]}`, neither None nor "
+          "super().match_args(..)")
+    if any(isinstance(a, ast.Starred) for a in value.args) or \
+        any(k.arg is None for k in value.keywords):
+      raise AnalysisError(f"{what}: */** arguments in the delegation")
+    passed = [src(a) for a in value.args]
+    names = list(params)
+    got = dict(zip(names, passed))
+    for k in value.keywords:
+      got[k.arg] = src(k.value)
+    facts.append({"when": ctext, "returns": src(value)[:60]})
+    if got != {n: n for n in params}:
+      problems.append(f"delegates with {src(value)} instead of its own "
+                      f"parameters {params}")
+    delegating += 1
+  if not delegating:
+    problems.append("never delegates to super().match_args")
+  ctx.check(not problems, construct, fi.rel, fn.lineno,
+            "match_args may skip matching only when the signature has no "
+            "parameter annotations: " + "; ".join(problems), {"paths": facts})
+
+
 def _calls_method(fn, name):
   return [c for c in calls_in(fn) if isinstance(c.func, ast.Attribute) and c.func.attr == name]
 
@@ -404,18 +532,7 @@ def r2_3(ctx):
   # (c) arguments
   fi = get_module(ctx, "pytype/abstract/_interpreter_function.py")
   fn = fi.func("InterpreterFunction.match_args")
-  rets = [n for n in ast.walk(fn) if isinstance(n, ast.Return)]
-  deleg = [r for r in rets if r.value is not None and "super().match_args(" in src(r.value)]
-  bare = [r for r in rets if r.value is None]
-  ok = len(deleg) == 1 and len(bare) == 1
-  if ok:
-    g = flow.guards_txt(fi.parent, bare[0])
-    ok = g == [("self.signature.has_param_annotations", False)]
-    a = [src(x) for x in deleg[0].value.args]
-    ok = ok and a == ["node", "args", "alias_map", "match_all_views"]
-  ctx.check(ok, "InterpreterFunction.match_args:delegates", fi.rel, fn.lineno,
-            "match_args may skip matching only when the signature has no "
-            "parameter annotations")
+  _match_args_delegates(ctx, fi, fn)
   fb = get_module(ctx, "pytype/abstract/_function_base.py")
   fn = fb.func("SignedFunction._match_args_sequentially") if fb.has_func(
       "SignedFunction._match_args_sequentially") else None
@@ -806,6 +923,28 @@ VARIANTS = [
     {"name": "match_args-skips-when-defaults", "rule": "R2.3", "file": "pytype/abstract/_interpreter_function.py", "expect": "fire",
      "old": "    if not self.signature.has_param_annotations:\n      return\n    return super().match_args(",
      "new": "    if not self.signature.has_param_annotations or self.signature.defaults:\n      return\n    return super().match_args("},
+    {"name": "twin-match_args-positive-guard", "rule": "R2.3", "file": "pytype/abstract/_interpreter_function.py", "expect": "silent",
+     "old": "    if not self.signature.has_param_annotations:\n      return\n    return super().match_args(node, args, alias_map, match_all_views)",
+     "new": "    if self.signature.has_param_annotations:\n      return super().match_args(node, args, alias_map, match_all_views)\n    return None"},
+    {"name": "twin-match_args-conditional-expression", "rule": "R2.3", "file": "pytype/abstract/_interpreter_function.py", "expect": "silent",
+     "old": "    if not self.signature.has_param_annotations:\n      return\n    return super().match_args(node, args, alias_map, match_all_views)",
+     "new": "    sig = self.signature\n    return (super().match_args(node, args, alias_map, match_all_views)\n            if sig.has_param_annotations else None)"},
+    {"name": "twin-benign-C13-r3", "rule": "R2.3", "patch": "benign/C13-r3/patch.diff", "expect": "silent"},
+    {"name": "match_args-positive-guard-needs-defaults-too", "rule": "R2.3", "file": "pytype/abstract/_interpreter_function.py", "expect": "fire",
+     "old": "    if not self.signature.has_param_annotations:\n      return\n    return super().match_args(node, args, alias_map, match_all_views)",
+     "new": "    if self.signature.has_param_annotations and not self.signature.defaults:\n      return super().match_args(node, args, alias_map, match_all_views)\n    return None"},
+    {"name": "match_args-positive-guard-inverted", "rule": "R2.3", "file": "pytype/abstract/_interpreter_function.py", "expect": "fire",
+     "old": "    if not self.signature.has_param_annotations:\n      return\n    return super().match_args(node, args, alias_map, match_all_views)",
+     "new": "    if not self.signature.has_param_annotations:\n      return super().match_args(node, args, alias_map, match_all_views)\n    return None"},
+    {"name": "match_args-falls-off-the-end", "rule": "R2.3", "file": "pytype/abstract/_interpreter_function.py", "expect": "fire",
+     "old": "    if not self.signature.has_param_annotations:\n      return\n    return super().match_args(node, args, alias_map, match_all_views)",
+     "new": "    if self.signature.has_param_annotations and match_all_views:\n      return super().match_args(node, args, alias_map, match_all_views)"},
+    {"name": "match_args-delegates-without-alias-map", "rule": "R2.3", "file": "pytype/abstract/_interpreter_function.py", "expect": "fire",
+     "old": "    return super().match_args(node, args, alias_map, match_all_views)",
+     "new": "    return super().match_args(node, args, None, match_all_views)"},
+    {"name": "match_args-result-from-unknown-helper", "rule": "R2.3", "file": "pytype/abstract/_interpreter_function.py", "expect": "error",
+     "old": "    return super().match_args(node, args, alias_map, match_all_views)",
+     "new": "    return self._do_match(node, args, alias_map, match_all_views)"},
     {"name": "wrong-arg-types-renamed", "rule": "R2.4", "file": "pytype/errors/errors.py", "expect": "fire",
      "old": '  @_error_name("wrong-arg-types")\n  def _wrong_arg_types(', "new": '  @_error_name("wrong-arg-count")\n  def _wrong_arg_types('},
     {"name": "revert-D15-dict-hashable", "rule": "R2.5", "file": stubs.TYPING, "expect": "fire",
